@@ -616,6 +616,75 @@ theorem bestOf_min {H : Type} (toi : H → K) (hits : List (Option H))
   · cases h1
   · exact ⟨h1, h3⟩
 
+/-! ## the cast over the trace equals the minimum over ALL parts -/
+
+/-- **Reduction over a covering trace.**  `part k` is the answer of the part cast for part `k`, `all` the parts of the shape,
+`trace` the parts the traversal hands to the part cast.  If the trace contains only parts of the shape and every part whose cast
+answers a hit is in the trace, then the running minimum over the trace is `None` iff NO part of the shape has a hit, and otherwise
+it is a part hit whose time of impact is minimal among the hits of ALL parts. -/
+theorem bestOf_cover {ι H : Type} (toi : H → K) (part : ι → Option H) (trace all : List ι)
+    (hsub : ∀ k ∈ trace, k ∈ all) (hcov : ∀ k ∈ all, part k ≠ none → k ∈ trace)
+    (hbig : ∀ k ∈ all, ∀ x, part k = some x → toi x < @realMax K (fieldNum K sq)) :
+    (@bestOf K (fieldNum K sq) H toi (trace.map part) = none ↔ ∀ k ∈ all, part k = none) ∧
+    (∀ r, @bestOf K (fieldNum K sq) H toi (trace.map part) = some r →
+      (∃ k ∈ trace, part k = some r) ∧ ∀ k ∈ all, ∀ x, part k = some x → toi r ≤ toi x) := by
+  have hb : ∀ x, some x ∈ trace.map part → toi x < @realMax K (fieldNum K sq) := by
+    intro x hx
+    obtain ⟨k, hk, e⟩ := List.mem_map.1 hx
+    exact hbig k (hsub k hk) x e
+  constructor
+  · rw [bestOf_none_iff sq toi _ hb]
+    constructor
+    · intro h k hk
+      by_contra hne
+      exact hne (h _ (List.mem_map.2 ⟨k, hcov k hk hne, rfl⟩))
+    · intro h x hx
+      obtain ⟨k, hk, e⟩ := List.mem_map.1 hx
+      rw [← e]; exact h k (hsub k hk)
+  · intro r hr
+    obtain ⟨h1, h2⟩ := bestOf_min sq toi _ hb r hr
+    obtain ⟨k, hk, e⟩ := List.mem_map.1 h1
+    refine ⟨⟨k, hk, e⟩, ?_⟩
+    intro k' hk' x hx
+    exact h2 x (List.mem_map.2 ⟨k', hcov k' hk' (by rw [hx]; simp), hx⟩)
+
+/-- **The 2-D height-field cast returns the first impact over ALL segments**, relative to the part casts.  `part k` is what the
+dispatcher answers for segment `k`; hypothesis `hloc`: a part hit happens at a time `t ∈ [0, max_time_of_impact]` at which the
+x-range of the moving (loosened) box meets the open x-range of that segment (locality of the part cast: at an impact the shape is
+within `target_distance` of the segment).  Then the result (`bestOf` over the trace of the walk) is `None` iff no existing segment
+has a hit, and otherwise a segment hit with the smallest time of impact among all existing segments. -/
+theorem castHF2_first {H : Type} (q : Quant K) (hq : LawfulQuant q) (hc : LawfulCeil q) (h : HF2 K) (hn : 0 < h.n)
+    (hs : 0 < h.scale.x) (b : Aabb2 K) (hbox : b.mins.x ≤ b.maxs.x) (vel : V2 K) (maxToi : K) (fuel : Nat) (tr : List Int)
+    (hw : @HW2.walk K (fieldNum K sq) q h b vel maxToi fuel = some tr)
+    (toi : H → K) (part : Int → Option H)
+    (hloc : ∀ k x, SegAt h k → part k = some x → 0 ≤ toi x ∧ toi x ≤ maxToi ∧ toi x < @realMax K (fieldNum K sq) ∧
+      b.mins.x + toi x * vel.x < X2 sq q h (k + 1) ∧ X2 sq q h k < b.maxs.x + toi x * vel.x) :
+    (@bestOf K (fieldNum K sq) H toi (tr.map part) = none ↔ ∀ k, SegAt h k → part k = none) ∧
+    (∀ r, @bestOf K (fieldNum K sq) H toi (tr.map part) = some r →
+      (∃ k ∈ tr, part k = some r) ∧ ∀ k x, SegAt h k → part k = some x → toi r ≤ toi x) := by
+  -- all existing segments, as a list
+  let all : List Int := (irange 0 h.n).filter fun k => !(h.removed.contains k.toNat)
+  have hall : ∀ k, k ∈ all ↔ SegAt h k := by
+    intro k
+    simp only [all, List.mem_filter, mem_irange, SegAt, Bool.not_eq_true', and_assoc]
+  have hsound := walk2_trace_sound sq q h b vel maxToi fuel tr hw
+  obtain ⟨c1, c2⟩ := bestOf_cover sq toi part tr all
+    (fun k hk => (hall k).2 (hsound k hk))
+    (fun k hk hne => by
+      have hk' := (hall k).1 hk
+      cases hp : part k with
+      | none => exact absurd hp hne
+      | some x =>
+        obtain ⟨t0, t1, _, o1, o2⟩ := hloc k x hk' hp
+        exact walk2_covers sq q hq hc h hn hs b hbox vel maxToi fuel tr hw k hk' (toi x) t0 t1 o1 o2)
+    (fun k hk x hx => (hloc k x ((hall k).1 hk) hx).2.2.1)
+  refine ⟨?_, ?_⟩
+  · rw [c1]
+    exact ⟨fun h' k hk => h' k ((hall k).2 hk), fun h' k hk => h' k ((hall k).1 hk)⟩
+  · intro r hr
+    obtain ⟨e1, e2⟩ := c2 r hr
+    exact ⟨e1, fun k x hk hx => e2 k ((hall k).2 hk) x hx⟩
+
 /-- non-vacuity of `bestOf_min`: three part casts answering `5`, nothing, `3` -/
 example : letI := fieldNum ℚ id
     bestOf (K := ℚ) (fun x : ℚ => x) [some 5, none, some 3, some 3] = some 3 := by
